@@ -223,6 +223,13 @@ class FloatLiteral(Literal[float]):
 
     __slots__ = ()
 
+    def __str__(self) -> str:
+        # `repr(1e16)` is "1e+16", which reads back as an integer literal.
+        mantissa, exp, power = repr(self.value).lower().partition("e")
+        if exp and "." not in mantissa:
+            mantissa += ".0"
+        return f"{mantissa}{exp}{power}"
+
 
 class RegexLiteral(Literal[Pattern[str]]):
     """A regex literal."""
